@@ -852,6 +852,59 @@ fn big_codes(rng: &mut StdRng, s: &mut Session, count: usize) {
     s.final_phase = false;
 }
 
+/// three-valued answers whose pictures contain nodes the stored diagram did not have: a constant statement LATE in the variable
+/// order decides part of an earlier statement's condition, the residual condition is a fresh node (Ground / Complete, both parsings)
+fn residual_pictures(rng: &mut StdRng, s: &mut Session) {
+    s.jars = vec![None; 3];
+    s.me = vec!["-".to_string(); 3];
+    s.ctrl.cmd(json!({"cmd": "reset"}));
+    s.scen = "residual-pictures".into();
+    s.seq = 0;
+    s.expected_updates = 0;
+    s.out.push(json!({"kind": "reset", "id": s.scen, "principals": 1}));
+    s.req(Some(0), "register", json!({"username": "residual", "password": "secret-res"}));
+    s.settle(true);
+    s.req(Some(0), "login", json!({"username": "residual", "password": "secret-res"}));
+    s.settle(true);
+    let mut codes: Vec<String> = vec![
+        "s(p1k80s0).s(p1k80s1).ac(p1k80s0,and(p1k80s0,p1k80s1)).ac(p1k80s1,c(v)).".into(),
+        "s(p1k81s0).s(p1k81s1).s(p1k81s2).ac(p1k81s0,and(p1k81s0,xor(p1k81s1,p1k81s2))).ac(p1k81s1,p1k81s1).ac(p1k81s2,c(v)).".into(),
+    ];
+    for k in 0..4 {
+        // u0 .. u_{m-1} stay undecided (each mentions itself), the facts come last in the order
+        let m = rng.gen_range(1..=2usize);
+        let nf = rng.gen_range(1..=2usize);
+        let n = m + nf;
+        let l = |i: usize| format!("p1k{}s{}", 82 + k, i);
+        let mut code = String::new();
+        for i in 0..n { code.push_str(&format!("s({}).", l(i))); }
+        for i in 0..m {
+            let f = l(m + rng.gen_range(0..nf));
+            let o = l(rng.gen_range(0..m));
+            let inner = match rng.gen_range(0..3) { 0 => format!("xor({},{})", o, f), 1 => format!("or(neg({}),and({},{}))", f, o, l(i)), _ => format!("iff({},{})", f, o) };
+            code.push_str(&format!("ac({},{}({},{})).", l(i), ["and", "or", "xor"][rng.gen_range(0..3)], l(i), inner));
+        }
+        for i in m..n { code.push_str(&format!("ac({},c({})).", l(i), if rng.gen_bool(0.5) { "v" } else { "f" })); }
+        codes.push(code);
+    }
+    for (i, code) in codes.iter().enumerate() {
+        for parsing in ["Hybrid", "Naive"] {
+            let name = format!("RES{}{}", i, &parsing[..1]);
+            s.req(Some(0), "add", json!({"name": name, "parsing": parsing, "class": "good", "code": code}));
+            s.settle(true);
+            for st in ["Ground", "Complete"] {
+                s.req(Some(0), "solve", json!({"name": name, "strategy": st}));
+                s.settle(true);
+            }
+            s.req(Some(0), "get", json!({"name": name}));
+        }
+    }
+    s.final_phase = true;
+    s.req(Some(0), "list", json!({}));
+    s.settle(true);
+    s.final_phase = false;
+}
+
 /// two users own a problem with the SAME name; one of them runs a slow task; what does the other one see meanwhile?
 fn slow_task_scenario(s: &mut Session) {
     s.jars = vec![None; 3];
@@ -923,6 +976,7 @@ pub fn main(args: &[String]) {
         random_scenario(&mut rng, &mut s, k);
     }
     big_codes(&mut rng, &mut s, if tier == "thorough" { 10 } else { 3 });
+    residual_pictures(&mut rng, &mut s);
     slow_task_scenario(&mut s);
     race_rename_window(&mut s);
     race_stale_write(&mut s);
@@ -937,7 +991,7 @@ pub fn main(args: &[String]) {
         writeln!(f, "{}", r).unwrap();
     }
     f.flush().unwrap();
-    eprintln!("server: {} scenarios, {} records", n + 11, s.out.len());
+    eprintln!("server: {} scenarios, {} records", n + 12, s.out.len());
     drop(procs);
     std::process::exit(0);
 }
